@@ -48,6 +48,8 @@ def XfOp.judge (prop : String) (op : XfOp) (out : String) : Expect :=
   | [first, second, solo, pay] =>
     if isPanicStr first || isPanicStr second then .pred false "ExtractFields must not panic" else
     if pay != "payload=same" then .pred false "extraction changed the payload bytes of the response" else
+    if (first.splitOn "RETAINED-RESULT-CHANGED").length > 1 then
+      .pred false "the values returned by an extraction were rewritten by the extractions made after it" else
     if first != second then .pred false "repeating the same extraction gave another result" else
     let soloVals := if solo == "solo:" then [] else ((solo.drop 5).toString.splitOn ",")
     let anyErr := soloVals.any fun s => s.endsWith "=!err"
